@@ -95,7 +95,12 @@ def build(cfg, scale=True, **over):
             if cfg.get(k) is not None: pars[k] = cfg[k]
     pars['diseases'] = [_disease(d, cfg['dt']) for d in cfg.get('diseases', [])]
     pars['networks'] = [impl._network(n, cfg['n_agents']) for n in cfg.get('networks', [])]
-    dem = [impl._demog(d) for d in cfg.get('demographics', [])]
+    dem = []
+    for d in cfg.get('demographics', []):
+        if d.get('type') == 'births' and ('dt' in d or 'unit' in d):   # births on their own (finer) timeline
+            dem.append(ss.Births(birth_rate=d.get('birth_rate', 20), **{k: d[k] for k in ('unit', 'dt') if k in d}))
+        else:
+            dem.append(impl._demog(d))
     if dem: pars['demographics'] = dem
     pars.update(over)
     return ss.Sim(**pars)
@@ -782,6 +787,15 @@ FIXED_CFGS = [
 ]
 
 
+FINE_TIMELINE_CFGS = [   # a disease AND births on a finer timeline than the sim: the population changes between sim steps
+    dict(n_agents=300, rand_seed=5, unit='day', dt=4, start='2020-01-01', dur=40, scale_form='none',
+         diseases=[dict(type='sis', beta=0.3, init_prev=0.3, dur_inf=10, waning=0.05, dt_mult=0.25)], networks=[dict(type='random', n_contacts=4, dur=0)],
+         demographics=[dict(type='births', birth_rate=4000, unit='day', dt=1.0)]),
+    dict(n_agents=300, rand_seed=6, unit='year', dt=1.0, start=2000, dur=6, scale_form='pop_scale_int', pop_scale=3,
+         diseases=[dict(type='sir', beta=0.3, init_prev=0.2, dur_inf=3, p_death=0.0, dt_mult=0.25)], networks=[dict(type='random', n_contacts=4, dur=0)],
+         demographics=[dict(type='births', birth_rate=200, unit='year', dt=0.25)]),
+]
+
 EXTRA_CFGS = [   # other disease classes: scale flags of their float results, infection flows
     dict(n_agents=120, rand_seed=4, unit='year', dt=1.0, start=2000, dur=5, scale_form='pop_scale_int', pop_scale=5,
          diseases=[dict(type=t, **kw)], networks=[dict(type='random', n_contacts=4, dur=0)], demographics=[])
@@ -790,7 +804,7 @@ EXTRA_CFGS = [   # other disease classes: scale flags of their float results, in
 
 
 def search(ctx):
-    for cfg in EXTRA_CFGS:
+    for cfg in FINE_TIMELINE_CFGS + EXTRA_CFGS:
         try:
             for f in oracle_sim(copy.deepcopy(cfg), twin=False, check_exports=False):
                 ctx.fail(f['signature'], f['what'], dict(kind='sim', cfg=cfg, signature=f['signature']))
